@@ -5,6 +5,7 @@
 import Qfx.Lemmas.CodecParse
 import Qfx.Lemmas.CodecParseD
 import Qfx.Lemmas.CodecTotal
+import Qfx.Lemmas.CodecBody
 open Qfx Qfx.Spec
 
 /-- the field extracted from a buffer is exactly the bytes up to and including the first SOH; the rest is what follows -/
@@ -196,6 +197,27 @@ theorem C11_faithful_dict_nogroups (fx : Fixes) (d : Dicts) (t8 t9 t35 : TagValu
   rw [hsec]
   exact getBytes_view _ _ _ j tv hfind hj
 
+/-- `bodyBytes` (what the resend rebuild `buildWithBodyBytes` re-emits; byte layer of C03): for a wire message whose fields come as
+    8, 9, 35, further header fields (at least one), body fields (at least one), trailer fields, 10 — parsed without dictionary —
+    `Message.bodyBytes` is exactly the bytes of the body fields: it starts behind the last header field and ends in front of
+    the first trailer field / CheckSum. -/
+theorem C11_bodyBytes_nodict (fx : Fixes) (t8 t9 t35 t10 : TagValue) (H B T : List TagValue)
+    (hw : WireMsg t8 t9 t35 (H ++ (B ++ T)) t10)
+    (hbl : atoi t9.value = .ok ((fieldsLength (t8 :: t9 :: t35 :: ((H ++ (B ++ T)) ++ [t10])) : Nat) : Int))
+    (hH : ∀ tv ∈ H, secOf Dicts.none tv.tag = .h) (hHne : H ≠ []) (hB : ∀ tv ∈ B, secOf Dicts.none tv.tag = .b) (hBne : B ≠ [])
+    (hT : ∀ tv ∈ T, secOf Dicts.none tv.tag = .t) :
+    ∃ m, parseMessage fx Dicts.none (wireOf (t8 :: t9 :: t35 :: ((H ++ (B ++ T)) ++ [t10]))) = .ok m ∧ m.bodyBytes = wireOf B := by
+  refine ⟨_, parse_wire_nodict fx t8 t9 t35 _ t10 hw hbl, ?_⟩
+  apply ndMessage_bodyBytes t8 t9 t35 t10 H B T hw.tag10
+  · intro tv h; rw [← secOf_none]; exact hH tv h
+  · exact hHne
+  · intro tv h; rw [← secOf_none]; exact hB tv h
+  · exact hBne
+  · intro tv h
+    obtain ⟨tt, hne, _, _, hb, _⟩ := (hw.wpre tv (by simp [h])).1
+    rw [hb]; simp
+  · intro tv h; rw [← secOf_none]; exact hT tv h
+
 /-- PANIC FREEDOM OF THE PARSER (codec part of C09; `C09_parse_total` of DESIGN §5).  After the fixes of D2 and D3, for EVERY
     byte string and EVERY dictionaries (transport and application, any content), `ParseMessageWithDataDictionary` into a
     fresh message returns a message or an error: none of the Go index / slice expressions of `doParsing`, `parseGroup`,
@@ -263,6 +285,7 @@ example : (extractField [56, 61, 70, 1, 57, 61, 53, 1]).1 = [57, 61, 53, 1] := b
         with dictionary groups and XMLData: C11_faithful_full, C11_retrievable_full (monitor)
         (monitor clauses accepts_wf, fields_faithful, parsed_sections, retrievable, raw_unchanged); field slicing: C11_extractField_slices
    "first three fields are not 8, 9, 35 … rejected"                                          C11_rejects_order
+   (byte layer of C03: bodyBytes)                                                             C11_bodyBytes_nodict
    "BodyLength disagrees with its content … rejected"                                        C11_rejects_length, C11_finish_checks_length,
                                                                                               C11_loop_ends_in_length_check (+ monitor rejects_length)
    "rejected with an error" = never a panic (C09 codec part)                                 C11_parse_total, C11_getters_total (all inputs, all dictionaries, fixed code);
